@@ -112,6 +112,16 @@ pub(crate) fn mk_validated<const K: usize>(coding: bool, header: SliceHeader, sh
     ValidatedShred::new_validated(shred, root)
 }
 
+/// The same shred with its data/coding tag flipped (what any relay can do to a shred in transit).
+pub(crate) fn flip_tag(s: Shred) -> Shred {
+    let Shred { payload_type, slice_sig, merkle_path } = s;
+    let payload_type = match payload_type {
+        ShredPayloadType::Data(p) => ShredPayloadType::Coding(p),
+        ShredPayloadType::Coding(p) => ShredPayloadType::Data(p),
+    };
+    Shred { payload_type, slice_sig, merkle_path }
+}
+
 // ---------------------------------------------------------------------------------------
 // c12_commit_inj
 // ---------------------------------------------------------------------------------------
